@@ -6,6 +6,21 @@ ROOT = os.path.dirname(os.path.dirname(os.path.abspath(__file__)))
 
 # id -> (category, technique, level text, level note, design ref)
 CHECKS = {
+ "C01": ("exploration",
+         "runtime monitor: differential against an independently written reference interpreter (set-valued where the statement is silent); instruction x boundary-state matrix, exhaustive boundary-operand sweeps, random nested programs and Plushy genomes run at step limits 0..T so every intermediate state of the real loop is compared",
+         "Every instruction shape (88) is performed on the cross product of capacities {0,1,2,3,4,8} x fills {0,1,2,3,cap-1,cap} of each stack it touches with boundary operands (i64 extremes, NaN, infinities, signed zeros, subnormals), plus exhaustive pool^2 operand sweeps; 2.5e5 (quick) / 3.8e6 (thorough) random programs incl. Plushy-translated ones are run to completion under every step limit 0..T and compared state-for-state (all stacks, capacities, stdout, limit, input bindings) with the reference interpreter. Sampled, not exhaustive.",
+         "Trusts the reference interpreter in harness/vh-push/src/pushvm.rs as the reading of the documented semantics; it accepts several outcomes where the statement is silent (double faults, i64::MIN % -1, exponents >= 2^32).",
+         "DESIGN.md §4 C01"),
+ "C02": ("fault_enumeration",
+         "runtime monitor: snapshot equality (state handed back with any error == clone of the state passed in, through e.state(), map_err_into, try_recover, into_state) and metamorphic skip-equivalence (failing instruction vs Noop under the same step limit), real code vs real code",
+         "Fault enumeration over every instruction shape x every (capacity, fill) combination of the stacks it reads/writes x arithmetic-fault operand pairs, with pre-filled stdout and bound inputs, plus every dynamic failure met while stepping random programs through State::perform. The evidence tabulates (instruction, fault kind) hit counts and the run is inconclusive for any reachable pair that never fired.",
+         "PushState's derived PartialEq is trusted to cover all fields; no model is involved.",
+         "DESIGN.md §4 C02"),
+ "C03": ("exploration",
+         "runtime monitor: loop-vs-mirror differential (run_to_completion vs stepping the real State::perform at most L times), capacity/severity invariants at every step, metered programs, and a subprocess hang/abort monitor with a CPU budget calibrated to the logical step bound",
+         "Random nested/Plushy/exec-heavy programs under capacities 0..usize::MAX and step limits 0..1e5 are compared at limits 0..40 and around their natural length; an exhaustive capacity 0..6 x limit 0..64 grid on small programs; every returned or carried state is checked against its maxima; every fatal error must be an overflow justified by a full destination. Self-replicating, exponentially growing, 20000-deep and extreme-arithmetic programs run in subprocesses under RLIMIT_AS with a CPU-time watchdog (hang) and signal classification (abort).",
+         "Insensitive to wrong instruction results by construction (the mirror uses the real perform). Hang = CPU time beyond 60 s + 2 us per permitted step x program node; wall-clock timeouts are inconclusive. Nesting beyond 20000 is not explored.",
+         "DESIGN.md §4 C03"),
  "C04": ("exploration",
          "runtime monitor: history + executable Vec/capacity model checked after every operation; exhaustive small-scope histories + long random histories with a drop-counting element type",
          "Every history of stack operations up to length 5 (quick) / 6 (thorough) over a 27-operation alphabet from capacities 0..4 is executed on the real Stack and compared with a Vec+capacity model after every operation (return value, exact underflow payload, full contents, size/is_empty/is_full/max); plus random 10^4-operation histories with capacities lowered below the current size and usize::MAX, and a drop-counting element type for conservation. Exhaustive within the stated scope, sampled beyond it.",
